@@ -238,7 +238,12 @@ func c01Judge(r *Run, c *corpus, reportPipeline bool) {
 			continue
 		}
 		if resp.StrictErr != "" {
-			r.Violation("strict-error/"+strictErrClass(m.cs.AM, m.obj.T, resp.StrictErr), fmt.Sprintf("UnmarshalJSONStrict of accepted document %s into %s fails: %s", q.Doc, m.obj.Name, resp.StrictErr), replay)
+			cls := strictErrClass(m.cs.AM, m.obj.T, resp.StrictErr)
+			if pm := strictPathRe.FindStringSubmatch(firstLine(resp.StrictErr)); pm != nil && belowNullElement(q.Doc, "."+pm[1]) {
+				// root cause: a null element of a collection of nullable references is decoded as an empty object
+				cls = "null-element-of-collection-decoded-as-empty-object"
+			}
+			r.Violation("strict-error/"+cls, fmt.Sprintf("UnmarshalJSONStrict of accepted document %s into %s fails: %s", q.Doc, m.obj.Name, resp.StrictErr), replay)
 		}
 		if resp.MarshalErr != "" {
 			r.Violation("marshal-error/"+fk+"/"+maskMsg(resp.MarshalErr), resp.MarshalErr, replay)
@@ -324,3 +329,69 @@ func strictErrClass(s *amSchema, root *amType, msg string) string {
 	}
 	return errClass(s, root, first)
 }
+
+// belowNullElement: does the document hold null at some proper prefix of the path (a.b[1].c, a[key].c)?
+func belowNullElement(raw []byte, path string) bool {
+	doc, err := parseJSONNum(raw)
+	if err != nil {
+		return false
+	}
+	cur := doc
+	steps := belowStepRe.FindAllStringSubmatch(path, -1)
+	for i, st := range steps {
+		if i == len(steps)-1 {
+			return false
+		}
+		var next any
+		var has bool
+		switch c := cur.(type) {
+		case map[string]any:
+			key := st[1]
+			if key == "" {
+				key = st[2]
+			}
+			next, has = c[key]
+		case []any:
+			var idx int
+			if _, err := fmt.Sscanf(st[2], "%d", &idx); err == nil && idx < len(c) {
+				next, has = c[idx], true
+			}
+		}
+		if !has {
+			return false
+		}
+		if next == nil {
+			return true
+		}
+		cur = next
+	}
+	return false
+}
+
+var belowStepRe = regexp.MustCompile(`\.?([A-Za-z0-9_]+)|\[([^\]]+)\]`)
+
+// hasNullCollectionElement: some array or map in the document holds a null element.
+func hasNullCollectionElement(v any, inColl bool) bool {
+	switch x := v.(type) {
+	case nil:
+		return inColl
+	case []any:
+		for _, e := range x {
+			if hasNullCollectionElement(e, true) {
+				return true
+			}
+		}
+	case map[string]any:
+		for k, e := range x {
+			if e == nil && docgenMapKeyRe.MatchString(k) {
+				return true // docgen names map keys key0, key1, …
+			}
+			if e != nil && hasNullCollectionElement(e, false) {
+				return true
+			}
+		}
+	}
+	return false
+}
+
+var docgenMapKeyRe = regexp.MustCompile(`^(key|k)\d+$`)
